@@ -549,6 +549,17 @@ def mask_unmodelled(impl, model, ops=None):
         a, b = impl[idx], model[idx]
         ma, mb = re.match(r"^(h=\d+ rc=\[)(.*?)(\].*)$", a or ""), re.match(r"^(h=\d+ rc=\[)(.*?)(\].*)$", b or "")
         stop = False
+        if ma and mb and ops is not None and idx < len(ops) and " sig:" in ops[idx]:
+            # a transaction with a mutated signature: the verification library words the failure in many ways; the class
+            # is normalised, the fact that it failed is still compared
+            ra, rb = ma.group(2).split(" "), mb.group(2).split(" ")
+            txs = [t.strip().split(" ") for t in ops[idx][len("block"):].split(" | ")]
+            if len(ra) == len(rb) == len(txs):
+                for i, t in enumerate(txs):
+                    if t and t[0].startswith("sig:") and t[0] != "sig:ok" and ra[i].startswith("F:"):
+                        ra[i] = "F:bad-sig:0"
+                a = ma.group(1) + " ".join(ra) + ma.group(3)
+                ma = re.match(r"^(h=\d+ rc=\[)(.*?)(\].*)$", a)
         if ma and mb and "F:unmodelled:0" in mb.group(2):
             ra, rb = ma.group(2).split(" "), mb.group(2).split(" ")
             if len(ra) == len(rb):
